@@ -240,7 +240,7 @@ class ManagementApi(object):
         :rtype: list
         """
         nodes = []
-        for node in self.nodes():
+        for node in self.nodes() or []:
             node_name = quote(node['name'], '')
             nodes.append(self.http_client.get(API_TOP % node_name))
         return nodes
